@@ -25,34 +25,22 @@ Proof. destruct a; cbn; congruence. Qed.
 Lemma eff_owner_self a : eff_owner a [] = a.
 Proof. destruct a; reflexivity. Qed.
 
-Lemma eR_write_enc r o u p : eR (write_enc r o u p) = r.
-Proof. unfold write_enc. destruct (aes256 r); reflexivity. Qed.
-
 Section P.
 Variable prep : bytes -> option bytes.
 
-(* reading side: the form in which a candidate is compared; writing side: the form that is stored *)
+(* the prepared form of a password: what the writer derives the O/U entries from and what the reader compares
+   (R<=4: padded / truncated to 32 bytes; R>=5: processInput, truncated to 127 bytes, None when it is rejected) *)
 Definition rprep (r : N) (x : bytes) : option bytes :=
-  if aes256 r then option_map trunc127 (prep x) else Some (pad32 x).
-Definition wstore (r : N) (c : bytes) : bytes := if aes256 r then c else pad32 c.
+  if aes256 r then prepared127 prep x else Some (pad32 x).
 
-(* candidate x is accepted for a document whose password is c *)
-Definition accepts (r : N) (c x : bytes) : Prop := rprep r x = Some (wstore r c).
-
-(* a password that the reader's preparation leaves alone (the negation of finding aes256-password-prep-asymmetric) *)
-Definition wp (x : bytes) : Prop := prep x = Some x /\ (length x <= 127)%nat.
-
-Lemma wp_accepts r c : (aes256 r = true -> wp c) -> accepts r c c.
-Proof.
-  intros H. unfold accepts, rprep, wstore. destruct (aes256 r); [|reflexivity].
-  destruct (H eq_refl) as [Hp Hl]. rewrite Hp. unfold option_map, trunc127. rewrite firstn_all2 by lia. reflexivity.
-Qed.
+(* candidate x is accepted for a document whose password is c: same prepared form *)
+Definition accepts (r : N) (c x : bytes) : Prop := rprep r x = rprep r c.
 
 Lemma validate_user_ok e x : validate_user prep e x = VOk <-> rprep (eR e) x = Some (eU e).
 Proof.
   unfold validate_user, rprep. destruct (aes256 (eR e)).
-  - destruct (prep x) as [p|]; unfold option_map; [|split; congruence].
-    destruct (beq (trunc127 p) (eU e)) eqn:E.
+  - destruct (prepared127 prep x) as [p|]; [|split; congruence].
+    destruct (beq p (eU e)) eqn:E.
     + apply beq_eq in E. split; congruence.
     + split; [congruence|]. intros H. inversion H as [H1]. rewrite H1, beq_refl in E. congruence.
   - destruct (beq (pad32 x) (eU e)) eqn:E.
@@ -69,8 +57,8 @@ Proof.
   unfold validate_owner, owner_ok, rprep. destruct (aes256 (eR e)).
   - destruct a as [|a0 a']; cbn [is_empty].
     + split; [congruence|]. intros [H _]. congruence.
-    + destruct (prep (a0 :: a')) as [p|]; unfold option_map; [|split; [congruence|intros [_ H]; congruence]].
-      destruct (beq (trunc127 p) (eO e)) eqn:E.
+    + destruct (prepared127 prep (a0 :: a')) as [p|]; [|split; [congruence|intros [_ H]; congruence]].
+      destruct (beq p (eO e)) eqn:E.
       * apply beq_eq in E. split; [intros _; split; congruence|reflexivity].
       * split; [congruence|]. intros [_ H]. inversion H as [H1]. rewrite H1, beq_refl in E. congruence.
   - destruct (beq (pad32 (eff_owner a b)) (eO e)) eqn:E.
@@ -81,14 +69,18 @@ Qed.
 (* the owner slot holds a password the reader's preparation rejects: setupEncryptionKey stops with that error *)
 Definition slot_err (r : N) (a : bytes) : Prop := aes256 r = true /\ a <> [] /\ prep a = None.
 
+Lemma prepared127_none x : prepared127 prep x = None <-> prep x = None.
+Proof. unfold prepared127. destruct (prep x); cbn; split; congruence. Qed.
+
 Lemma validate_owner_err e a b : validate_owner prep e a b = VErr <-> slot_err (eR e) a.
 Proof.
   unfold validate_owner, slot_err. destruct (aes256 (eR e)).
   - destruct a as [|a0 a']; cbn [is_empty].
     + split; [congruence|]. intros (_ & H & _). congruence.
-    + destruct (prep (a0 :: a')) as [p|].
-      * destruct (beq (trunc127 p) (eO e)); split; try congruence; intros (_ & _ & H); congruence.
-      * split; [intros _; repeat split; congruence|reflexivity].
+    + destruct (prepared127 prep (a0 :: a')) as [p|] eqn:Ep.
+      * destruct (beq p (eO e)); split; try congruence; intros (_ & _ & H);
+          apply prepared127_none in H; congruence.
+      * apply prepared127_none in Ep. split; [intros _; repeat split; congruence|reflexivity].
   - destruct (beq (pad32 (eff_owner a b)) (eO e)); split; try congruence; intros (H & _); congruence.
 Qed.
 
@@ -97,15 +89,6 @@ Qed.
 Lemma setup_key_neither nb ow us pk be hp :
   ow <> VOk -> us <> VOk -> opened (setup_key nb ow us pk be hp) = false.
 Proof. destruct ow, us, nb, pk, be, hp; cbn; congruence. Qed.
-
-Lemma setup_key_wrong ow us pk be hp :
-  ow = VNo -> us = VNo -> setup_key false ow us pk be hp = EWrongPassword.
-Proof. intros -> ->. reflexivity. Qed.
-
-Lemma setup_key_opened_inv nb ow us pk be hp :
-  opened (setup_key nb ow us pk be hp) = true ->
-  if nb then ow = VOk /\ us = VOk else ow = VOk \/ us = VOk.
-Proof. destruct ow, us, nb, pk, be, hp; cbn; intros H; try congruence; auto. Qed.
 
 Lemma access_opened_iff nb e a b :
   opened (access prep nb e a b) = true <->
@@ -125,19 +108,25 @@ Qed.
 
 (* ---- errors write nothing ---- *)
 
+Lemma rewrite_with_err d w x d' : rewrite_with d w = (RErr x, d') -> d' = d.
+Proof. destruct w; cbn; intros H; inversion H; reflexivity. Qed.
+
+Lemma rewrite_with_ok d w d' : rewrite_with d w = (ROk, d') -> exists e', w = Some e' /\ d' = Encrypted e'.
+Proof. destruct w as [e'|]; cbn; intros H; inversion H. exists e'. split; reflexivity. Qed.
+
 Lemma step_err_unchanged d o x d' : step prep d o = (RErr x, d') -> d' = d.
 Proof.
   destruct o as [r opw upw p|opw upw|opw uo un|upw oo on|opw upw p]; cbn.
-  - destruct d; [destruct (is_empty opw)|]; intros H; inversion H; reflexivity.
+  - destruct d; [destruct (is_empty opw)|]; try (intros H; inversion H; reflexivity). apply rewrite_with_err.
   - destruct d as [|e]; [intros H; inversion H; reflexivity|].
     destruct (opened (access prep false e opw upw)); intros H; inversion H; reflexivity.
   - destruct d as [|e]; [intros H; inversion H; reflexivity|].
-    destruct (opened (access prep true e opw uo)); intros H; inversion H; reflexivity.
+    destruct (opened (access prep true e opw uo)); [apply rewrite_with_err|intros H; inversion H; reflexivity].
   - destruct (is_empty on); [intros H; inversion H; reflexivity|].
     destruct d as [|e]; [intros H; inversion H; reflexivity|].
-    destruct (opened (access prep true e oo upw)); intros H; inversion H; reflexivity.
+    destruct (opened (access prep true e oo upw)); [apply rewrite_with_err|intros H; inversion H; reflexivity].
   - destruct d as [|e]; [intros H; inversion H; reflexivity|].
-    destruct (opened (access prep true e opw upw)); intros H; inversion H; reflexivity.
+    destruct (opened (access prep true e opw upw)); [apply rewrite_with_err|intros H; inversion H; reflexivity].
 Qed.
 
 (* ---- changes need the owner password (and the user password) ---- *)
@@ -178,13 +167,16 @@ Proof.
   - destruct (change_requires_owner _ _ _ Hc E) as [e' [He [Ho _]]]. inversion He; subst. contradiction.
   - pose proof (step_err_unchanged _ _ _ _ E) as ->. exists x. split; [reflexivity|].
     destruct o as [r opw upw p|opw upw|opw uo un|upw oo on|opw upw p]; cbn in Hc, E, Hno; try congruence.
-    + destruct (opened (access prep true e opw uo)) eqn:Eo; [congruence|]. inversion E; subst.
-      split; intros Hx; rewrite Hx in Eo; cbn in Eo; congruence.
+    + destruct (opened (access prep true e opw uo)) eqn:Eo.
+      * apply (access_opened_iff true) in Eo. destruct Eo; contradiction.
+      * inversion E; subst. split; intros Hx; rewrite Hx in Eo; cbn in Eo; congruence.
     + destruct (is_empty on); [inversion E; split; congruence|].
-      destruct (opened (access prep true e oo upw)) eqn:Eo; [congruence|]. inversion E; subst.
-      split; intros Hx; rewrite Hx in Eo; cbn in Eo; congruence.
-    + destruct (opened (access prep true e opw upw)) eqn:Eo; [congruence|]. inversion E; subst.
-      split; intros Hx; rewrite Hx in Eo; cbn in Eo; congruence.
+      destruct (opened (access prep true e oo upw)) eqn:Eo.
+      * apply (access_opened_iff true) in Eo. destruct Eo; contradiction.
+      * inversion E; subst. split; intros Hx; rewrite Hx in Eo; cbn in Eo; congruence.
+    + destruct (opened (access prep true e opw upw)) eqn:Eo.
+      * apply (access_opened_iff true) in Eo. destruct Eo; contradiction.
+      * inversion E; subst. split; intros Hx; rewrite Hx in Eo; cbn in Eo; congruence.
 Qed.
 
 (* ---- histories: the current passwords, as the person who ran the operations understands them ---- *)
@@ -214,136 +206,94 @@ Fixpoint cur (g : option creds) (d : doc) (h : list op) : option creds :=
     cur (if is_ok r then cur_step g o else g) d' h'
   end.
 
-(* the passwords an operation writes into the document *)
-Definition written (o : op) : list bytes :=
-  match o with
-  | OpEncrypt _ opw upw _ => [opw; upw]
-  | OpDecrypt _ _ => []
-  | OpChangeUser opw _ un => [opw; un]
-  | OpChangeOwner upw _ on => [on; upw]
-  | OpSetPerms opw upw _ => [opw; upw]
-  end.
-
-(* every password written into an AES-256 document is one the reader's preparation leaves alone *)
-Fixpoint hist_wp (d : doc) (h : list op) : Prop :=
-  match h with
-  | [] => True
-  | o :: h' =>
-    let '(r, d') := step prep d o in
-    match r, d' with
-    | ROk, Encrypted e => aes256 (eR e) = true -> Forall wp (written o)
-    | _, _ => True
-    end /\ hist_wp d' h'
-  end.
-
+(* the document stores exactly the prepared forms of the current passwords *)
 Definition rel (d : doc) (g : option creds) : Prop :=
   match d, g with
   | Plain, None => True
   | Encrypted e, Some c =>
-    eR e = cR c /\ eO e = wstore (cR c) (cO c) /\ eU e = wstore (cR c) (cU c)
-    /\ (aes256 (cR c) = true -> cO c <> [] /\ wp (cO c) /\ wp (cU c))
+    eR e = cR c /\ rprep (cR c) (cO c) = Some (eO e) /\ rprep (cR c) (cU c) = Some (eU e)
+    /\ (aes256 (cR c) = true -> cO c <> [])
   | _, _ => False
   end.
 
-Lemma rprep_pad r x y : aes256 r = false -> rprep r x = Some (wstore r y) -> pad32 x = pad32 y.
-Proof. unfold rprep, wstore. intros ->. congruence. Qed.
-
-Lemma rprep_wp r x y : aes256 r = true -> wp x -> rprep r x = Some y -> x = y.
+Lemma write_enc_some r o u p e' : write_enc prep r o u p = Some e' ->
+  eR e' = r /\ rprep r (if aes256 r then o else eff_owner o u) = Some (eO e') /\ rprep r u = Some (eU e').
 Proof.
-  unfold rprep. intros -> [Hp Hl]. rewrite Hp. unfold option_map, trunc127. rewrite firstn_all2 by lia. congruence.
+  unfold write_enc, rprep. destruct (aes256 r).
+  - destruct (prepared127 prep u) as [pu|]; [|congruence].
+    destruct (prepared127 prep o) as [po|]; [|congruence].
+    intros [= <-]. cbn. repeat split; reflexivity.
+  - intros [= <-]. cbn. repeat split; reflexivity.
 Qed.
 
 Lemma step_rel d g o r d' :
-  rel d g -> step prep d o = (r, d') ->
-  match r, d' with
-  | ROk, Encrypted e => aes256 (eR e) = true -> Forall wp (written o)
-  | _, _ => True
-  end ->
-  rel d' (if is_ok r then cur_step g o else g).
+  rel d g -> step prep d o = (r, d') -> rel d' (if is_ok r then cur_step g o else g).
 Proof.
-  intros Hrel Hstep Hwp.
+  intros Hrel Hstep.
   destruct r as [|x]; cbn [is_ok].
   2:{ apply step_err_unchanged in Hstep. subst. exact Hrel. }
   destruct o as [r opw upw p|opw upw|opw uo un|upw oo on|opw upw p]; cbn in Hstep.
   - (* encrypt *)
     destruct d as [|e]; [|congruence]. destruct (is_empty opw) eqn:Eo; [congruence|].
-    inversion Hstep; subst d'. cbn [cur_step]. unfold rel, write_enc, wstore in *.
     assert (Hne : opw <> []) by (intros ->; cbn in Eo; congruence).
-    destruct (aes256 r) eqn:Ea; cbn; rewrite ?Ea.
-    + cbn in Hwp. rewrite Ea in Hwp. specialize (Hwp eq_refl).
-      inversion Hwp as [|? ? Hw1 Hw2]; subst. inversion Hw2 as [|? ? Hw3 _]; subst.
-      refine (conj eq_refl (conj eq_refl (conj eq_refl _))). intros _.
-      exact (conj Hne (conj Hw1 Hw3)).
-    + rewrite eff_owner_nonempty by assumption.
-      refine (conj eq_refl (conj eq_refl (conj eq_refl _))). congruence.
+    apply rewrite_with_ok in Hstep. destruct Hstep as (e' & Hw & ->).
+    apply write_enc_some in Hw. destruct Hw as (HR & HO & HU).
+    rewrite eff_owner_nonempty in HO by assumption.
+    cbn [cur_step]. unfold rel. cbn [cR cO cU].
+    refine (conj HR (conj _ (conj HU (fun _ => Hne)))). destruct (aes256 r); exact HO.
   - (* decrypt *)
     destruct d as [|e]; [congruence|]. destruct (opened (access prep false e opw upw)); [|congruence].
     inversion Hstep; subst. destruct g; cbn; exact I.
   - (* change user *)
     destruct d as [|e]; [congruence|]. destruct (opened (access prep true e opw uo)) eqn:Eacc; [|congruence].
-    inversion Hstep; subst d'. destruct g as [c|]; [|contradiction].
-    destruct Hrel as (HR & HO & HU & HA).
+    apply rewrite_with_ok in Hstep. destruct Hstep as (e' & Hw & ->).
+    destruct g as [c|]; [|contradiction]. destruct Hrel as (HR & HO & HU & HA).
     apply (access_opened_iff true) in Eacc. destruct Eacc as [Hown Husr].
     apply validate_owner_ok in Hown. unfold owner_ok in Hown.
-    cbn [cur_step option_map]. unfold rel, write_enc. rewrite HR in *.
-    destruct (aes256 (cR c)) eqn:Ea; cbn; unfold wstore; rewrite ?Ea.
-    + destruct Hown as [Hne Hacc]. cbn in Hwp. rewrite eR_write_enc, Ea in Hwp. specialize (Hwp eq_refl).
-      inversion Hwp as [|? ? Hw1 Hw2]; subst. inversion Hw2 as [|? ? Hw3 _]; subst.
-      assert (Hie : is_empty opw = false) by (destruct opw; cbn; congruence). rewrite Hie.
-      pose proof (rprep_wp _ _ _ Ea Hw1 Hacc) as Heq.
-      rewrite HO in Heq. unfold wstore in Heq. rewrite Ea in Heq.
-      refine (conj eq_refl (conj Heq (conj eq_refl _))). intros _.
-      destruct (HA eq_refl) as (Hn & Hwo & Hwu). exact (conj Hn (conj Hwo Hw3)).
-    + repeat split; try reflexivity; try congruence.
-      destruct (is_empty opw) eqn:Hie.
-      * apply is_empty_nil in Hie. subst opw. reflexivity.
-      * assert (Hne : opw <> []) by (intros ->; cbn in Hie; congruence).
-        rewrite eff_owner_nonempty in * by assumption.
-        unfold rprep in Hown. rewrite Ea in Hown. rewrite HO in Hown. unfold wstore in Hown. rewrite Ea in Hown.
-        congruence.
+    apply write_enc_some in Hw. destruct Hw as (HR' & HO' & HU').
+    cbn [cur_step option_map]. unfold rel. cbn [cR cO cU]. rewrite HR in *.
+    refine (conj HR' (conj _ (conj HU' _))).
+    + destruct (aes256 (cR c)) eqn:Ea.
+      * destruct Hown as [Hne Hacc].
+        assert (Hie : is_empty opw = false) by (destruct opw; cbn; congruence). rewrite Hie. congruence.
+      * destruct (is_empty opw) eqn:Hie.
+        -- apply is_empty_nil in Hie. subst opw. exact HO'.
+        -- assert (Hne : opw <> []) by (intros ->; cbn in Hie; congruence).
+           rewrite eff_owner_nonempty in * by assumption. congruence.
+    + intros Ha. rewrite Ha in Hown. destruct Hown as [Hne _].
+      assert (Hie : is_empty opw = false) by (destruct opw; cbn; congruence). rewrite Hie. exact (HA Ha).
   - (* change owner *)
     destruct (is_empty on) eqn:Eon; [congruence|].
     destruct d as [|e]; [congruence|]. destruct (opened (access prep true e oo upw)) eqn:Eacc; [|congruence].
-    inversion Hstep; subst d'. destruct g as [c|]; [|contradiction].
-    destruct Hrel as (HR & HO & HU & HA).
+    apply rewrite_with_ok in Hstep. destruct Hstep as (e' & Hw & ->).
+    destruct g as [c|]; [|contradiction]. destruct Hrel as (HR & HO & HU & HA).
     apply (access_opened_iff true) in Eacc. destruct Eacc as [Hown Husr].
     apply validate_user_ok in Husr.
     assert (Hne : on <> []) by (intros ->; cbn in Eon; congruence).
-    cbn [cur_step option_map]. unfold rel, write_enc. rewrite HR in *.
-    destruct (aes256 (cR c)) eqn:Ea; cbn; unfold wstore; rewrite ?Ea.
-    + cbn in Hwp. rewrite eR_write_enc, Ea in Hwp. specialize (Hwp eq_refl).
-      inversion Hwp as [|? ? Hw1 Hw2]; subst. inversion Hw2 as [|? ? Hw3 _]; subst.
-      pose proof (rprep_wp _ _ _ Ea Hw3 Husr) as Heq.
-      rewrite HU in Heq. unfold wstore in Heq. rewrite Ea in Heq.
-      refine (conj eq_refl (conj eq_refl (conj Heq _))). intros _.
-      destruct (HA eq_refl) as (Hn & Hwo & Hwu). exact (conj Hne (conj Hw1 Hwu)).
-    + rewrite eff_owner_nonempty by assumption.
-      repeat split; try reflexivity; try congruence.
-      unfold rprep in Husr. rewrite Ea in Husr. rewrite HU in Husr. unfold wstore in Husr. rewrite Ea in Husr.
-      congruence.
+    apply write_enc_some in Hw. destruct Hw as (HR' & HO' & HU').
+    rewrite eff_owner_nonempty in HO' by assumption.
+    cbn [cur_step option_map]. unfold rel. cbn [cR cO cU]. rewrite HR in *.
+    refine (conj HR' (conj _ (conj _ (fun _ => Hne)))).
+    + destruct (aes256 (cR c)); exact HO'.
+    + congruence.
   - (* set permissions *)
     destruct d as [|e]; [congruence|]. destruct (opened (access prep true e opw upw)) eqn:Eacc; [|congruence].
-    inversion Hstep; subst d'. destruct g as [c|]; [|contradiction].
-    destruct Hrel as (HR & HO & HU & HA).
+    apply rewrite_with_ok in Hstep. destruct Hstep as (e' & Hw & ->).
+    destruct g as [c|]; [|contradiction]. destruct Hrel as (HR & HO & HU & HA).
     apply (access_opened_iff true) in Eacc. destruct Eacc as [Hown Husr].
     apply validate_owner_ok in Hown. unfold owner_ok in Hown. apply validate_user_ok in Husr.
-    cbn [cur_step]. unfold rel, write_enc. rewrite HR in *.
-    destruct (aes256 (cR c)) eqn:Ea; cbn; unfold wstore; rewrite ?Ea.
-    + destruct Hown as [Hne Hacc]. cbn in Hwp. rewrite eR_write_enc, Ea in Hwp. specialize (Hwp eq_refl).
-      inversion Hwp as [|? ? Hw1 Hw2]; subst. inversion Hw2 as [|? ? Hw3 _]; subst.
-      pose proof (rprep_wp _ _ _ Ea Hw1 Hacc) as Heq1. pose proof (rprep_wp _ _ _ Ea Hw3 Husr) as Heq2.
-      rewrite HO in Heq1. rewrite HU in Heq2. unfold wstore in Heq1, Heq2. rewrite Ea in Heq1, Heq2.
-      refine (conj eq_refl (conj Heq1 (conj Heq2 _))). intros _. exact (HA eq_refl).
-    + unfold rprep in Hown, Husr. rewrite Ea in Hown, Husr. rewrite HO in Hown. rewrite HU in Husr.
-      unfold wstore in Hown, Husr. rewrite Ea in Hown, Husr.
-      repeat split; try reflexivity; try congruence.
+    apply write_enc_some in Hw. destruct Hw as (HR' & HO' & HU').
+    cbn [cur_step]. unfold rel. rewrite HR in *.
+    refine (conj HR' (conj _ (conj _ HA))).
+    + destruct (aes256 (cR c)); [destruct Hown as [_ Hacc]|]; congruence.
+    + congruence.
 Qed.
 
-Lemma history_rel h : forall d g, rel d g -> hist_wp d h -> rel (run prep d h) (cur g d h).
+Lemma history_rel h : forall d g, rel d g -> rel (run prep d h) (cur g d h).
 Proof.
-  induction h as [|o h IH]; intros d g Hrel Hwp; cbn in *; [exact Hrel|].
-  destruct (step prep d o) as [r d'] eqn:E. cbn [snd]. destruct Hwp as [Hw Hrest].
-  apply IH; [|exact Hrest]. eapply step_rel; eassumption.
+  induction h as [|o h IH]; intros d g Hrel; cbn in *; [exact Hrel|].
+  destruct (step prep d o) as [r d'] eqn:E. cbn [snd].
+  apply IH. eapply step_rel; eassumption.
 Qed.
 
 (* which credentials open a document whose current passwords are c *)
@@ -366,18 +316,16 @@ Lemma current_open e c :
   /\ (cO c <> [] -> opened (access prep true e (cO c) (cU c)) = true).
 Proof.
   intros Hrel. pose proof Hrel as (HR & HO & HU & HA).
-  assert (HaccO : accepts (cR c) (cO c) (cO c)) by (apply wp_accepts; intros Ha; apply (HA Ha)).
-  assert (HaccU : accepts (cR c) (cU c) (cU c)) by (apply wp_accepts; intros Ha; apply (HA Ha)).
   split; [|split].
-  - apply (opens_iff _ _ _ _ Hrel). left. unfold owner_accepts. destruct (aes256 (cR c)) eqn:Ea.
-    + split; [apply (HA eq_refl)|exact HaccO].
-    + rewrite eff_owner_self. exact HaccO.
-  - apply (opens_iff _ _ _ _ Hrel). right. split; [|exact HaccU]. intros (_ & H & _). congruence.
+  - apply (opens_iff _ _ _ _ Hrel). left. unfold owner_accepts, accepts. destruct (aes256 (cR c)) eqn:Ea.
+    + split; [apply (HA eq_refl)|reflexivity].
+    + rewrite eff_owner_self. reflexivity.
+  - apply (opens_iff _ _ _ _ Hrel). right. split; [|reflexivity]. intros (_ & H & _). congruence.
   - intros Hne. apply (access_opened_iff true). rewrite validate_owner_ok, validate_user_ok. unfold owner_ok.
-    rewrite HR, HO, HU. split; [|exact HaccU].
+    rewrite HR. split; [|exact HU].
     destruct (aes256 (cR c)) eqn:Ea.
-    + split; [exact Hne|exact HaccO].
-    + rewrite eff_owner_nonempty by exact Hne. exact HaccO.
+    + split; [exact Hne|exact HO].
+    + rewrite eff_owner_nonempty by exact Hne. exact HO.
 Qed.
 
 (* a candidate that is accepted neither for the current owner nor for the current user password *)
@@ -420,7 +368,6 @@ Proof.
 Qed.
 
 Lemma history_current prep h :
-  hist_wp prep Plain h ->
   match run prep Plain h, cur prep None Plain h with
   | Plain, None => True
   | Encrypted e, Some c =>
@@ -429,13 +376,15 @@ Lemma history_current prep h :
     /\ opens prep e (cO c) [] = true /\ opens prep e [] (cU c) = true
     /\ (forall x, ~ accepts prep (cR c) (cO c) x -> ~ accepts prep (cR c) (cU c) x ->
           opens prep e [] x = false /\ (~ accepts prep (cR c) (cU c) [] -> opens prep e x [] = false))
+    /\ rprep prep (cR c) (cO c) <> None /\ rprep prep (cR c) (cU c) <> None
   | _, _ => False
   end.
 Proof.
-  intros Hwp. pose proof (history_rel prep h Plain None I Hwp) as Hrel.
+  pose proof (history_rel prep h Plain None I) as Hrel.
   destruct (run prep Plain h) as [|e]; destruct (cur prep None Plain h) as [c|]; try exact Hrel; try exact I.
   split; [intros a b; apply opens_iff; exact Hrel|].
   destruct (current_open prep e c Hrel) as (H1 & H2 & _).
   split; [exact H1|]. split; [exact H2|].
-  intros x. apply stale_rejected. exact Hrel.
+  split; [intros x; apply stale_rejected; exact Hrel|].
+  destruct Hrel as (_ & HO & HU & _). rewrite HO, HU. split; congruence.
 Qed.
